@@ -130,10 +130,29 @@ func (s *Server) setSettings(settings serverSettings) {
 	if oldSettings.Limits != settings.Limits {
 		// include trees kept for the open documents were resolved under the old limits
 		s.filesGen.Add(1)
+		// ... and so was the workspace's view of the root journal's include tree
+		s.reloadWorkspace()
 	}
 	if oldSettings.CLI.Path != settings.CLI.Path || oldSettings.CLI.Timeout != settings.CLI.Timeout {
 		s.reinitCLI(settings.CLI)
 	}
+}
+
+// reloadWorkspace builds the workspace view again from the files (under the limits now
+// in force) and then lays the texts of the open documents over it.
+func (s *Server) reloadWorkspace() {
+	if s.workspace == nil || s.workspace.RootJournalPath() == "" {
+		return
+	}
+	_ = s.workspace.Initialize()
+	s.documents.Range(func(key, value any) bool {
+		docURI, _ := key.(protocol.DocumentURI)
+		text, _ := value.(string)
+		if path := uriToPath(docURI); path != "" {
+			s.workspace.UpdateFile(path, text)
+		}
+		return true
+	})
 }
 
 func (s *Server) getSettings() serverSettings {
